@@ -201,3 +201,25 @@ def tlapm(module_rel, scratch, timeout=900):
     if not m:
         raise MachineryError("tlapm did not prove %s:\n%s" % (module_rel, p.stdout[-2000:]))
     return int(m.group(1))
+
+
+def apalache_inductive(module_rel, scratch, cinit="ConstInit", init="Init", indinit="IndInit", inv="IndInv", timeout=900):
+    """Apalache side-car: Init => Inv (length 0) and Inv /\\ Next => Inv' (length 1). Returns the number of obligations (2)."""
+    import shutil
+    src = os.path.join(SPEC_DIR, module_rel)
+    work = os.path.join(scratch, "apalache")
+    os.makedirs(work, exist_ok=True)
+    shutil.copy(src, os.path.join(work, os.path.basename(src)))
+    done = 0
+    for i, length in ((init, 0), (indinit, 1)):
+        cmd = ["apalache-mc", "check", "--cinit=" + cinit, "--init=" + i, "--inv=" + inv, "--length=%d" % length,
+               "--out-dir=" + os.path.join(work, "out"), os.path.basename(src)]
+        try:
+            p = subprocess.run(cmd, cwd=work, stdout=subprocess.PIPE, stderr=subprocess.STDOUT, timeout=timeout, text=True, errors="replace")
+        except subprocess.TimeoutExpired:
+            raise MachineryError("apalache timeout on " + module_rel)
+        if "The outcome is: NoError" not in p.stdout or "EXITCODE: OK" not in p.stdout:
+            raise MachineryError("apalache did not establish %s (init %s) for %s:\n%s" % (inv, i, module_rel, p.stdout[-1500:]))
+        done += 1
+    shutil.rmtree(work, ignore_errors=True)
+    return done
